@@ -91,13 +91,33 @@ def c10_r1(ctx):
     # last-block marker
     WA = pm.Alpha(wb)
     wsts = pm.stmts_of(wb.node)
-    wi = [c for c in norm.calls_in(wb.node) if norm.call_name(c) == "write_int" and c.args and isinstance(c.args[0], ast.Name)]
-    if len(wi) == 1:
-        WA.eq(wi[0].args[0], "blocklength")
-    w_neg = any(isinstance(st, ast.If) and norm.canon(st.test) == "last" and not st.orelse and
-                (WA.has(st.body, "blocklength *= -1") or WA.has(st.body, "blocklength = -blocklength")) for st in wsts) and \
-        sum(1 for st in wsts if isinstance(st, (ast.Assign, ast.AugAssign)) and
-            WA.eq(st.targets[0] if isinstance(st, ast.Assign) else st.target, "blocklength")) == 2
+    # what is handed to write_int, evaluated once for last=False and once for last=True (whatever the shape: `if last: n *= -1`,
+    # `n = -n`, a conditional expression in the call)
+    written = {}
+    for lastval in (False, True):
+        seen_ints = []
+
+        def observe(e, env, ev, _out=seen_ints):
+            if isinstance(e, ast.Call) and norm.call_name(e) == "write_int" and e.args:
+                _out.append(ev.value(e.args[0], env))
+
+        def decide(t, env, ev, _lv=lastval):
+            c_ = norm.canon(t)
+            if c_ == "last":
+                return _lv
+            if c_ == "(not last)":
+                return not _lv
+            return None
+        cases.CaseEval(wb.node, cases.sym_absval, decide, observe=observe).run({})
+        written[lastval] = seen_ints
+    # undecided tests (first block? compress?) are followed on both sides, so each case yields a set of values; the sets must
+    # correspond one to one under negation
+    def negs(x):
+        return set(["(-%s)" % x, "(%s * (-1))" % x, "((-1) * %s)" % x, "(0 - %s)" % x])
+    plain = set(v[1] for v in written[False] if v[0] == "sym")
+    marked = set(v[1] for v in written[True] if v[0] == "sym")
+    w_neg = bool(plain) and len(plain) == len(marked) and all(v[0] == "sym" for v in written[False] + written[True]) and \
+        all(any(m in negs(p_) for p_ in plain) for m in marked) and not (plain & marked)
     r_neg = False
     gsts = pm.stmts_of(gt.node)
     G.find(gsts, "length = postfile.read_int()")
@@ -113,7 +133,8 @@ def c10_r1(ctx):
     info_ok = any(WA.eq(st, "infobytes = dumps(ANY, 2)") for st in wsts
                   if isinstance(st, ast.Assign) and isinstance(st.value, ast.Call) and st.value.args and st.value.args[0] is wtuple)
     ok = len(wcalls) == 3 and info_ok and WA.has(wsts, "blocklength = len(infobytes) + len(databytes)") and \
-        WA.eq(wcalls[0], "self._postfile.write_int(blocklength)", al=True) and WA.eq(wcalls[1], "self._postfile.write(infobytes)", al=True) and \
+        norm.call_name(wcalls[0]) == "write_int" and len(wcalls[0].args) == 1 and WA.name("blocklength") in norm.names_in(wcalls[0].args[0]) and \
+        WA.eq(wcalls[1], "self._postfile.write(infobytes)", al=True) and \
         WA.eq(wcalls[2], "self._postfile.write(databytes)", al=True)
     ctx.ob(wb, ok, "block is written as length, info pickle, data", detail=str([WA.text(c) for c in wcalls]))
     rorder = [norm.call_name(c) for c in norm.calls_in(gt.node) if norm.call_name(c) in ("read_int", "read_pickle", "tell", "seek")]
